@@ -544,6 +544,9 @@ def thorough_extras(pid, P, workdir, rep):
             print("NOTE property=%s the stored input of open finding %s no longer fails on the real code: the known-findings entry is stale" % (pid, k.get("test") or k.get("script")))
     # 3. must-fail corpus: every mutant must make some baseline clause fail
     corpus = load_json(os.path.join(VERIF, "selftest", "mutants.json"), {}).get(pid, [])
+    # behaviour-preserving textual rewrites (written with the contracts): none may raise an alarm
+    corpus = corpus + [dict(b, benign=True) for b in load_json(os.path.join(VERIF, "selftest", "benign.json"), {}).get(pid, [])]
+    extra.setdefault("benign", [])
     baseline = load_json(BASELINE, {})
     known = load_json(KNOWN, {"findings": []})
     for i, m in enumerate(corpus):
@@ -564,7 +567,9 @@ def thorough_extras(pid, P, workdir, rep):
             json.dump({f: mf}, out)
         results = []
         bad = False
-        for gi, (pkgs, only) in enumerate(P["groups"]):
+        mdir = os.path.dirname(m["file"])
+        groups = [g for g in P["groups"] if any(pk.lstrip("./") == mdir for pk in g[0])] or P["groups"]
+        for gi, (pkgs, only) in enumerate(groups):
             res, log = run_govc(pkgs, only, 10, workdir, "m%d_g%d" % (i, gi), overlay=ov)
             if res is None:
                 bad = True
@@ -574,7 +579,13 @@ def thorough_extras(pid, P, workdir, rep):
             extra["mutants"].append({"note": m.get("note"), "status": "mutant does not type-check"})
             continue
         r2 = classify(pid, results, baseline, known)
+        # functions of groups that were not re-run are not "missing"
         caught = [o["name"] for o in r2["violations"]][:3]
+        if m.get("benign"):
+            extra["benign"].append({"note": m.get("note"), "file": m["file"], "status": "ALARM" if caught else "quiet", "failing": caught})
+            if caught:
+                print("SELFTEST property=%s behaviour-preserving rewrite raised an alarm: %s (%s): %s" % (pid, m.get("note"), m["file"], caught[0]))
+            continue
         extra["mutants"].append({"note": m.get("note"), "file": m["file"], "status": "caught" if caught else "MISSED", "failing": caught})
         if not caught:
             print("SELFTEST property=%s mutant not caught: %s (%s)" % (pid, m.get("note"), m["file"]))
